@@ -17,3 +17,90 @@ Proof. reflexivity. Qed.
 Lemma go_CalculateTailOffsetFromPhysAddr_tie addr :
   go_CalculateTailOffsetFromPhysAddr addr = Fit.tail_offset_of_phys addr.
 Proof. reflexivity. Qed.
+
+(* ---------------------------------------------------------------- *)
+(* entry_headers.go: Address64, Uint24, TypeAndIsChecksumValid, data segment size *)
+(* ---------------------------------------------------------------- *)
+From Fiano Require Import Base.BytesLemmas.
+From Coq Require Import ZifyBool ZifyNat.
+
+Lemma go_Address64_Offset_tie addr size : go_Address64_Offset addr size = Fit.offset_of_phys addr size.
+Proof. reflexivity. Qed.
+
+(* SetOffset: the new value of the address (the old one is not read) *)
+Lemma go_Address64_SetOffset_tie old off size : go_Address64_SetOffset old off size = Fit.phys_of_offset off size.
+Proof. reflexivity. Qed.
+
+(* Uint24{Value [3]byte}: the value is a list of three bytes *)
+Lemma go_Uint24_Uint32_tie a b c : go_Uint24_Uint32 [a; b; c] = Ok (Fit.u24_get [a; b; c]).
+Proof. reflexivity. Qed.
+
+(* SetUint32: the new contents of Value; a value of 2^24 or more panics on both sides (site 1) *)
+Lemma go_Uint24_SetUint32_tie a b c v : go_Uint24_SetUint32 [a; b; c] v = Fit.u24_set v.
+Proof.
+  unfold go_Uint24_SetUint32, Fit.u24_set. change (2 ^ 24) with 16777216.
+  destruct (16777216 <=? v); reflexivity.
+Qed.
+
+Lemma go_TypeAndIsChecksumValid_Type_tie f : go_TypeAndIsChecksumValid_Type f = Fit.tc_type f.
+Proof. reflexivity. Qed.
+
+Lemma go_TypeAndIsChecksumValid_IsChecksumValid_tie f :
+  go_TypeAndIsChecksumValid_IsChecksumValid f = Fit.tc_cv f.
+Proof. reflexivity. Qed.
+
+Definition fit_byte_values : list Z := map Z.of_nat (seq 0 256).
+Lemma fit_byte_values_in a : 0 <= a < 256 -> In a fit_byte_values.
+Proof.
+  intros Ha. unfold fit_byte_values. apply in_map_iff. exists (Z.to_nat a). split; [lia|].
+  apply in_seq. lia.
+Qed.
+Lemma byte_sweep (P : Z -> bool) : forallb P fit_byte_values = true -> forall a, 0 <= a < 256 -> P a = true.
+Proof. intros H a Ha. rewrite forallb_forall in H. apply H, fit_byte_values_in, Ha. Qed.
+
+(* SetType on bytes: the test "newType has no bit above 0x7f" and the kept C_V bit, each by a
+   sweep over one byte; a type above 0x7f panics on both sides (the model calls the site 2) *)
+Lemma go_TypeAndIsChecksumValid_SetType_tie f t : 0 <= f < 256 -> 0 <= t < 256 ->
+  go_TypeAndIsChecksumValid_SetType f t =
+  match Fit.tc_set_type f t with Panic _ => Panic 1 | o => o end.
+Proof.
+  intros Hf Ht. unfold go_TypeAndIsChecksumValid_SetType, Fit.tc_set_type. cbv zeta.
+  assert (H1 : (Z.land (wrap 64 t) 18446744073709551488 =? 0) = (Z.land t 127 =? t)).
+  { apply (byte_sweep (fun t => Bool.eqb (Z.land (wrap 64 t) 18446744073709551488 =? 0) (Z.land t 127 =? t))
+             ltac:(vm_compute; reflexivity)) in Ht. apply eqb_prop in Ht. exact Ht. }
+  assert (H2 : wrap 8 (Z.land (wrap 64 f) 18446744073709551488) = Z.land f 128).
+  { apply (byte_sweep (fun f => wrap 8 (Z.land (wrap 64 f) 18446744073709551488) =? Z.land f 128)
+             ltac:(vm_compute; reflexivity)) in Hf. lia. }
+  rewrite H1, H2. destruct (Z.land t 127 =? t); reflexivity.
+Qed.
+
+Lemma go_TypeAndIsChecksumValid_SetIsChecksumValid_tie f v : 0 <= f < 256 ->
+  go_TypeAndIsChecksumValid_SetIsChecksumValid f v = Fit.tc_set_cv f v.
+Proof.
+  intros Hf. unfold go_TypeAndIsChecksumValid_SetIsChecksumValid, Fit.tc_set_cv. cbv zeta.
+  assert (H : wrap 8 (Z.land (wrap 64 f) 127) = Z.land f 127).
+  { apply (byte_sweep (fun f => wrap 8 (Z.land (wrap 64 f) 127) =? Z.land f 127)
+             ltac:(vm_compute; reflexivity)) in Hf. lia. }
+  rewrite H. destruct v; reflexivity.
+Qed.
+
+(* the most common data segment size: Size.Uint32() << 4 as uint64 (no truncation: the 24-bit
+   value times 16 is below 2^28).  The model writes [hsz h * 16]. *)
+Lemma go_EntryHeaders_mostCommonGetDataSegmentSize_tie a b c :
+  0 <= a < 256 -> 0 <= b < 256 -> 0 <= c < 256 ->
+  go_EntryHeaders_mostCommonGetDataSegmentSize [a; b; c] = Ok (Fit.u24_get [a; b; c] * 16).
+Proof.
+  intros Ha Hb Hc. unfold go_EntryHeaders_mostCommonGetDataSegmentSize.
+  rewrite go_Uint24_Uint32_tie. cbn [bind].
+  assert (Hr : 0 <= Fit.u24_get [a; b; c] < 2 ^ 24).
+  { unfold Fit.u24_get. change (zfirstn 3 [a; b; c]) with [a; b; c]. cbn [app le_dec]. lia. }
+  unfold go_shl. rewrite (wrap_small 64 (Fit.u24_get [a; b; c])) by lia. rewrite Z.shiftl_mul_pow2 by lia.
+  rewrite wrap_small by lia. reflexivity.
+Qed.
+
+(* SizeM16.Size (size in units of 16 bytes); no model function: stated for the record *)
+Lemma go_SizeM16_Size_eq s : 0 <= s < 65536 -> go_SizeM16_Size s = s * 16.
+Proof.
+  intros Hs. unfold go_SizeM16_Size, go_shl. rewrite (wrap_small 64 s) by lia.
+  rewrite Z.shiftl_mul_pow2 by lia. rewrite wrap_small by lia. reflexivity.
+Qed.
